@@ -619,6 +619,31 @@ static void do_a(const char *kinds, char *ops)
                 oprintf(" t%d/%s%s", find_thread((void *)t), ub,
                         (k[1] == 'p' && u != u2) ? "!unit" : "");
             }
+        } else if (strcmp(k, "pn") == 0) {
+            /* batch pop: ABT_pool_pop_threads(len = b); reported as b single pops (the missing ones as t0/0).  Only
+             * generated for built-in pools and legacy ABT_pool_def pools (pool_pop_many_wrapper over the user's p_pop) */
+            long kk = 0;
+            sscanf(rest, "%ld %ld %ld", &a, &b, &kk);
+            a_popk = (int)kk;
+            ABT_thread ts[16];
+            size_t num = 0, i;
+            if (b > 16) b = 16;
+            rc = ABT_pool_pop_threads(AP[a].h, ts, (size_t)b, &num);
+            if (rc != ABT_SUCCESS)
+                oprintf(" e%d", rc);
+            else {
+                for (i = 0; i < (size_t)b; i++) {
+                    if (i >= num || ts[i] == ABT_THREAD_NULL)
+                        oprintf(" t0/0");
+                    else {
+                        char ub[48];
+                        ABT_unit u2 = ABT_UNIT_NULL;
+                        ABT_thread_get_unit(ts[i], &u2);
+                        fmt_unit(ub, u2);
+                        oprintf(" t%d/%s", find_thread((void *)ts[i]), ub);
+                    }
+                }
+            }
         } else if (strcmp(k, "sa") == 0) {
             sscanf(rest, "%ld %ld", &a, &b);
             rc = ABT_thread_set_associated_pool(AT[a].h, AP[b].h);
